@@ -81,7 +81,7 @@ def parseAuthority (raw : Bytes) : Except Err (Option Bytes × Option Bytes × B
     let (host, port) : Bytes × Option Int :=
       match pyInt 10 (lastTok.getLast?.getD []) with
       | some v => (a ++ [COLON] ++ c ++ [COLON] ++ join [COLON] lastTok.dropLast, some v)
-      | none => (raw, none)        -- whole input (userinfo included) as host
+      | none => (hostport, none)   -- whole authority sans userinfo (`split_at[-1]`) as host
     -- `host.decode('utf-8')`
     if !utf8Valid host then throw .valueError
     let host :=
